@@ -325,6 +325,9 @@ type Node struct {
 	AllGSCalls   []GSCall
 	CrashedLives map[int]bool // lives that began after a crash (not a clean stop)
 	LifeStart    map[int]int  // scheduling step at which each life began
+	// PreStart runs after the manager was built and before Start; PostStart right after Start returned (the migration is still running)
+	PreStart  func(m datatransfer.Manager)
+	PostStart func(m datatransfer.Manager)
 }
 
 // collectGS flattens the graphsync API call logs of all lives.
@@ -377,9 +380,15 @@ func (n *Node) Start() bool {
 	}
 	ready := make(chan error, 1)
 	m.OnReady(func(e error) { ready <- e })
+	if n.PreStart != nil {
+		n.PreStart(m)
+	}
 	if err := m.Start(context.Background()); err != nil {
 		n.r.HarnessErr = "manager Start: " + err.Error()
 		return false
+	}
+	if n.PostStart != nil {
+		n.PostStart(m)
 	}
 	if e := simrt.Recv(ready); e != nil {
 		n.r.HarnessErr = "manager ready: " + e.Error()
